@@ -38,7 +38,7 @@ def build_ops(run: Run):
             if kind == "raise":
                 return z3.IntVal(INVALID)
             if isinstance(val, pyz3.FD):
-                return val.term
+                return pyz3.fd_index_term(val, dom, INVALID)
             for i, m in enumerate(dom):
                 if val is m:
                     return z3.IntVal(i)
